@@ -83,6 +83,7 @@ fn main() {
         "dist" => cmd_dist(&args),
         "print" => cmd_print(&args),
         "timelimit" => cmd_timelimit(&args),
+        "faults" => cmd_faults(&args),
         "presolve-replay" => {
             let r = replay_presolve::replay_file(&args.get("in", "b.ndjson"), &args.get("out", "m.ndjson"), args.num("seed", 1));
             println!("{}", r);
@@ -106,6 +107,7 @@ fn main() {
         "json" => {
             let dir = args.get("dir", "/tmp");
             let (mut lines, cases) = rec_json::roundtrip_events(args.num("seed", 1), args.num("count", 300) as usize, &dir);
+            lines.extend(rec_json::settings_sweep(&dir));
             let nrt = lines.len();
             lines.extend(rec_json::fault_events(args.num("seed", 1), args.get("tier", "quick") == "thorough", &dir));
             write_lines(&args.get("out", "json.ndjson"), &lines);
@@ -114,12 +116,37 @@ fn main() {
         }
         "json-replay" => {
             let v = load_case(&args);
+            if v.get("sweep").is_some() {
+                write_lines(&args.get("out", "json.ndjson"), &rec_json::settings_sweep(&args.get("dir", "/tmp")));
+                return;
+            }
             let p: problem::Problem = serde_json::from_value(v["problem"].clone()).unwrap();
             let mut lines = vec![];
             for (sf, mu) in [(false, false), (true, false), (false, true), (true, true)] {
                 lines.push(rec_json::roundtrip_event(v["run"].as_u64().unwrap_or(0) as usize, &p, &args.get("dir", "/tmp"), sf, mu));
             }
             write_lines(&args.get("out", "json.ndjson"), &lines);
+        }
+        "step-debug" => {
+            // diagnostic: the search direction and iterate after `--k` iterations of a recorded case
+            let v = load_case(&args);
+            let p: problem::Problem = serde_json::from_value(v["problem"].clone()).unwrap();
+            let mut st = p.settings();
+            st.max_iter = args.num("k", 1) as u32;
+            let (P, A) = (p.P.to_clarabel(), p.A.to_clarabel());
+            let mut s = clarabel::solver::DefaultSolver::new(&P, &p.q, &A, &p.b, &p.clarabel_cones(), st);
+            use clarabel::solver::IPSolver;
+            s.solve();
+            println!("status {:?} iters {}", s.solution.status, s.solution.iterations);
+            println!("lhs: tau {:e} kappa {:e} x {:?} z {:?} s {:?}", s.step_lhs.τ, s.step_lhs.κ, s.step_lhs.x, s.step_lhs.z, s.step_lhs.s);
+            println!("prev: tau {:e} kappa {:e} x {:?} z {:?} s {:?}", s.prev_vars.τ, s.prev_vars.κ, s.prev_vars.x, s.prev_vars.z, s.prev_vars.s);
+            println!("vars: tau {:e} kappa {:e} x {:?} z {:?} s {:?}", s.variables.τ, s.variables.κ, s.variables.x, s.variables.z, s.variables.s);
+        }
+        "json-sens" => {
+            // diagnostic: verdict histogram of a case under random one-ulp perturbations of its data
+            let v = load_case(&args);
+            let p: problem::Problem = serde_json::from_value(v["problem"].clone()).unwrap();
+            println!("{}", rec_json::sensitivity(&p, args.num("count", 64) as usize));
         }
         "dsu-replay" => {
             let r = rec_chordal::dsu_replay_file(&args.get("in", "b.ndjson"), &args.get("out", "m.ndjson"));
@@ -449,6 +476,49 @@ fn cmd_timelimit(args: &Args) {
     write_lines(&args.get("out", "tl.ndjson"), &lines);
     write_lines(&args.get("cases", "tl.cases.ndjson"), &cases);
     let meta = json!({"runs": count, "status_hist": hist});
+    std::fs::write(args.get("meta", "meta.json"), serde_json::to_string(&meta).unwrap()).unwrap();
+    println!("{}", meta);
+}
+
+/// C04: scripted failures at the solver's internal decision points (scaling update, KKT refactorisation, affine and
+/// combined solves, step length) on all problem families: the real control flow must stay inside IPM.tla's actions
+/// (strategy switches, rollback, NumericalError / InsufficientProgress exits) and end in a terminal status.
+fn cmd_faults(args: &Args) {
+    let seed = args.num("seed", 1);
+    let count = args.num("count", 300) as usize;
+    let mut rng = StdRng::seed_from_u64(seed);
+    let mut lines = vec![];
+    let mut cases = vec![];
+    let mut hist: HashMap<String, usize> = HashMap::new();
+    let mut points: HashMap<String, usize> = HashMap::new();
+    for run in 0..count {
+        let fam = ["mixed", "mixed", "socsym", "feasible"][rng.gen_range(0..4)];
+        let mut p = gen_family(&mut rng, fam, 8);
+        p.settings = gen::random_settings(&mut rng, p.is_symmetric());
+        if let Some(m) = p.settings.as_object_mut() { if rng.gen::<f64>() < 0.7 { m.remove("max_iter"); } }
+        let mut script = vec![];
+        for _ in 0..rng.gen_range(1..=3) {
+            let pt = ["scale", "kkt", "affine", "combined", "alpha", "alpha"][rng.gen_range(0..6)];
+            let k = rng.gen_range(0..7u32);
+            let v = if pt == "alpha" { [0.0, 1e-9, 1e-5, 1e-3, 0.3][rng.gen_range(0..5)] } else { 1.0 };
+            *points.entry(pt.to_string()).or_default() += 1;
+            script.push((pt.to_string(), k, v));
+        }
+        let opts = rec_ipm::RunOpts { script: script.clone(), ..Default::default() };
+        let out = rec_ipm::run_ipm(run, &p, &opts);
+        cases.push(json!({"run": run, "problem": p, "script": script}));
+        match (&out.result, &out.panic) {
+            (Some(r), _) => {
+                *hist.entry(rec_ipm::STATUS_NAMES[r.status].to_string()).or_default() += 1;
+                lines.extend(out.lines);
+            }
+            (None, Some(m)) => lines.push(json!({"ev": "Panic", "run": run, "msg": m})),
+            _ => unreachable!(),
+        }
+    }
+    write_lines(&args.get("out", "faults.ndjson"), &lines);
+    write_lines(&args.get("cases", "faults.cases.ndjson"), &cases);
+    let meta = json!({"runs": count, "status_hist": hist, "points": points});
     std::fs::write(args.get("meta", "meta.json"), serde_json::to_string(&meta).unwrap()).unwrap();
     println!("{}", meta);
 }
